@@ -143,6 +143,29 @@ def run(ctx):
         ctx.check("table:disconnected:retain", okr, "on disconnect exactly the fetches started with that peer are dropped (kept iff from != remote)",
                   rules.where(dc), fn=dc)
 
+        # dropping the fetch table entries of a peer goes together with tearing its session down: the per-session set of
+        # in-flight fetches (Session.fetching) is only reset by to_disconnected()/removal, so dropping the table entries
+        # while the session stays connected lets a second fetch of the same repository start
+        g = graph(dc)
+        ret = rules.call_blocks(dc, r"HashMap::retain$")
+        down = rules.call_blocks(dc, r"session::Session::to_disconnected$") + \
+            [bb for bb, t, c in db.calls(dc) if re.search(r"(HashMap|AddressBook|BTreeMap)::remove$", c.get("n") or "") and
+             "sessions" in nshow(expr_operand(dc, t[2][0]))]
+        ctx.floor("disconnected:teardown", len(down), 2, "session teardown sites in Service::disconnected (to_disconnected, sessions.remove)")
+        leak = None
+        for rb in ret:
+            blocks = g.reach_k([(rb, frozenset())], avoid_blocks=down)
+            for r_ in rules.ret_blocks(dc):
+                if r_ in blocks:
+                    leak = g.path_k(blocks, r_)
+            pre = g.reach([0], avoid_blocks=down)
+            if rb not in pre:
+                leak = None   # teardown already happened before the retain
+        okd, ad, badd = rules.dom_check(db, dc, ret, lambda ft: ft[0] == "cmp" and ft[1] == "Eq" and ".link" in nshow(ft[2]) + nshow(ft[3]))
+        ctx.check("pair:disconnected:retain-teardown", bool(ret) and leak is None,
+                  "in-flight fetches of a peer are dropped only on paths that also tear the session down (same link); otherwise the service "
+                  "forgets a fetch its session still counts", rules.where(dc, ret[0] if ret else None), detail={"path": leak}, fn=dc)
+
     # 4. queue bound and capacity table
     qf = db.one(r"^radicle_node::service::session::Session::queue_fetch$")
     if qf is None:
